@@ -19,6 +19,8 @@ ASSUMPTIONS = [
     "allocation failure, stack depth and capacity requests passed as caller-supplied usize (reserve, reserve_exact, with_capacity) are outside the property's string-argument quantifier: listed, not claimed",
     "J15: TABLE[b as usize] / TABLE[usize::from(b)] for b: u8 is justified only if the table has at least 256 entries; a `const fn` that no run-time body calls (it only initialises a const item) is evaluated by the compiler, where a panic is a compile error",
     "J14: ARRAY[e as usize] is justified only if e is an enum value with default discriminants and the array is at least as long as the enum has variants",
+    "J18: n + 1 (or n + the length of the current item) of a local that is initialised with 0/1 and otherwise only assigned that sum, inside exactly one loop, cannot overflow: it counts the items / sums the sizes of in-memory data visited once each",
+    "J17: x.unwrap() is justified only by a dominating is_some()/is_none()/match test of the same immutable value x",
     "J16: v[start..] on a String is justified only if start is v.len() evaluated earlier (dominating) in the same function and every operation on v in that function appends or rewrites in place (ASCII case change)",
     "J13: a string slice &s[..i] / &s[i+1..] is justified only if i is the Some-payload of s.find(c) / s.rfind(c) on the same s for a one-byte (ASCII) char constant c",
     "J12: x - c is justified only by a dominating branch condition on the same x that implies x >= c (x != 0, x > k, x >= k)",
@@ -191,10 +193,27 @@ def docpanic_for(facts, k):
     return None
 
 
+def is_counter_term(t):
+    """phi(c | (self + 1).0): a local that starts at a constant 0/1 and is only ever incremented by one"""
+    if t[0] == "var" and len(t) > 2:
+        t = t[2]
+    if t[0] != "phi":
+        return False
+    consts = [x for x in t[1] if x[0] == "const" and isinstance(x[1], int) and not isinstance(x[1], bool) and 0 <= x[1] <= 1]
+    def step_ok(op):
+        # by one, or by the length(s) of the item of this iteration (each item is visited once: the sum stays below the
+        # total size of the live data, J9)
+        return op == ("const", 1) or (op[0] != "phi" and bounded_term(op, 1))
+    incs = [x for x in t[1] if x[0] == "field" and x[2] == "0" and x[1][0] == "binop" and x[1][1] in ("AddWithOverflow", "Add") and step_ok(x[1][3]) and (x[1][2][0] == "cycle" or is_counter_term(x[1][2]) or x[1][2] == t)]
+    return bool(consts) and bool(incs) and len(consts) + len(incs) == len(t[1])
+
+
 def bounded_term(t, depth=0):
     """J9: is the normalised term a length / count / sum of such / small constant?"""
     if depth > 8:
         return False
+    if is_counter_term(t):
+        return True   # a counter of loop iterations (J18 justifies its own increments)
     if t[0] == "const":
         return isinstance(t[1], int) and 0 <= t[1] <= 1
     if t[0] in ("some", "ok") and t[1][0] == "call" and t[1][1] in (models.STR + "find", models.STR + "rfind"):
@@ -292,6 +311,12 @@ def justify(facts, s):
                 return "J8", "divisor check is a constant"
             return None, "divisor is not a non-zero constant: %s" % nshow(c)[:80]
         if what.startswith("Overflow(Add"):
+            # J18: `n += 1` of a loop counter: n starts at a small constant and is only ever set to n + 1, at most once per
+            # iteration of the single loop the addition sits in -- it cannot exceed the number of items that loop visits
+            if len(ops) == 2 and (ops[1] == ("const", 1) or (ops[1][0] != "phi" and bounded_term(ops[1]))):
+                depth = sum(1 for h_, blk_ in b.loops().items() if bb in blk_)
+                if depth == 1 and is_counter_term(ops[0]):
+                    return "J18", "increment of a loop counter inside one loop over a finite iterator (LOOP obligations): %s" % nshow(ops[0])[:60]
             if all(bounded_term(o) for o in ops):
                 return "J9", "operands are lengths/counts/sums of live data or constants <= 1: %s" % " + ".join(nshow(o)[:50] for o in ops)
             return None, "addition operands are not bounded by a length/count: %s" % " + ".join(nshow(o)[:60] for o in ops)
@@ -375,6 +400,17 @@ def justify(facts, s):
                 return "J3", "%s returns Some on every path" % a[1]
         if a[0] == "call" and a[1] == "std::cmp::PartialOrd::partial_cmp":
             return None, "unresolved partial_cmp"
+        # J17: the very value is known to be Some / Ok here: a dominating test of it (`if x.is_none() { return .. }`,
+        # `if x.is_some()`, a match arm) on a value that nothing can change in between (an immutable local or a call result)
+        raw_atoms = [at for _, at in atoms_at(b, bb)]
+        want_some = ("std::option::Option::<T>::is_some", "std::result::Result::<T, E>::is_ok")
+        want_none = ("std::option::Option::<T>::is_none", "std::result::Result::<T, E>::is_err")
+        for at in raw_atoms:
+            if at[0] == "pred" and len(at[2]) == 1 and norm(at[2][0]) == a and a[0] != "var":
+                if (at[1] in want_some and at[-1] is True) or (at[1] in want_none and at[-1] is False):
+                    return "J17", "the value is tested to be Some/Ok on every path to the unwrap: %s" % models.show_canon(models.canon_atom(at))[:100]
+            if at[0] == "is" and norm(at[1]) == a and at[-1] in ("Some", "Ok") and a[0] != "var":
+                return "J17", "the unwrap sits in the Some/Ok arm of a match on the same value"
         return None, "unwrap of %s" % nshow(a)[:100]
     if item == "index" and p == models.STR_INDEX:
         # J13: &s[..i] / &s[i + 1..] where i is the position at which an ASCII char was found in the same s: both ends are
